@@ -127,6 +127,21 @@ func callersHold(P *Prog, fn *ssa.Function, lock *types.Var, needW bool, depth i
 		if P.isScaffold(vu.Parent()) {
 			continue
 		}
+		// a method value that is only ever called where it was made (f := m.step; … f()) is a call at those
+		// places; anything else (passed on, stored, returned) escapes
+		if calls, local := localCallsOfFuncValue(vu); local {
+			for _, cl := range calls {
+				if ok, _ := heldAt(P, cl, lock, needW); !ok {
+					if depth <= 0 {
+						return false, fmt.Sprintf("call of %s (through a function value) at %s without %s", fnName(fn), P.instrPos(cl), lock.Name())
+					}
+					if ok2, why := callersHold(P, cl.Parent(), lock, needW, depth-1, seen); !ok2 {
+						return false, fmt.Sprintf("call of %s (through a function value) at %s without %s; and %s", fnName(fn), P.instrPos(cl), lock.Name(), why)
+					}
+				}
+			}
+			continue
+		}
 		return false, fmt.Sprintf("%s escapes as a function value at %s", fnName(fn), P.instrPos(vu))
 	}
 	for _, cs := range sites {
@@ -380,4 +395,67 @@ func (P *Prog) writersOf(f *types.Var) map[string][]fieldAccess {
 		out[n] = append(out[n], a)
 	}
 	return out
+}
+
+// localCallsOfFuncValue: ins creates a function value (MakeClosure of a bound
+// wrapper). If every use of that value — through φs and local variables — is
+// being called, the calls are returned and local is true.
+func localCallsOfFuncValue(ins ssa.Instruction) (calls []ssa.Instruction, local bool) {
+	mc, ok := ins.(*ssa.MakeClosure)
+	if !ok {
+		return nil, false
+	}
+	seen := map[ssa.Value]bool{}
+	var walk func(v ssa.Value) bool
+	walk = func(v ssa.Value) bool {
+		if seen[v] {
+			return true
+		}
+		seen[v] = true
+		refs := v.Referrers()
+		if refs == nil {
+			return false
+		}
+		for _, r := range *refs {
+			switch t := r.(type) {
+			case *ssa.Call:
+				if t.Call.Value != v {
+					return false // passed as an argument
+				}
+				calls = append(calls, t)
+			case *ssa.Phi:
+				if !walk(t) {
+					return false
+				}
+			case *ssa.Store:
+				al, isLocal := t.Addr.(*ssa.Alloc)
+				if !isLocal || t.Val != v || al.Heap {
+					return false
+				}
+				for _, lr := range *al.Referrers() {
+					switch u := lr.(type) {
+					case *ssa.Store:
+						if u.Addr != ssa.Value(al) {
+							return false
+						}
+					case *ssa.UnOp:
+						if !walk(u) {
+							return false
+						}
+					case *ssa.DebugRef:
+					default:
+						return false
+					}
+				}
+			case *ssa.DebugRef:
+			default:
+				return false
+			}
+		}
+		return true
+	}
+	if !walk(mc) {
+		return nil, false
+	}
+	return calls, len(calls) > 0
 }
